@@ -116,26 +116,51 @@ class C19(PropBase):
     rule = ("T cases call bitflip::try_bit_flips directly (address, source register, bit range, amd64 context or none, "
             "memory-info list or Linux maps with 0..64 regions of every permission mix, memory operation); P cases run "
             "process_minidump on a synthesized dump (x86/amd64/arm64 x Windows/Linux, exception code/parameters, optional "
-            "planted instruction bytes). Addresses are one bit away from region addresses, near null, canonical boundary, random. "
+            "planted instruction bytes); Q cases run process_minidump on a dump with any processor_architecture value "
+            "(AMD64, PPC64, MIPS64, ARM64, ARM64_OLD, the 32-bit ones, unknown ones), exception code / si_code / parameters "
+            "(incl. the general-protection-fault shapes), and an ENCODED amd64 instruction at rip (mov/add/sub/cmp/xor/and/or/"
+            "test/inc/dec/lea/push/pop/call/jmp with every ModRM/SIB memory form incl. rip-relative, absolute, 32-bit addressing; "
+            "call/jmp reg, ret, jcc, call/jmp imm, nop) together with its decoded form for the model; scenarios: zero base "
+            "register, zero index only, zero call target, accessed address in the non-canonical range one high bit from a "
+            "mapped one, operand registers one bit from a region, power-of-two addresses. Addresses are one bit away from "
+            "region addresses, near null, canonical boundary, random. "
             "Non-trivial = at least one flip reported; distinct = distinct case lines")
     trusted_base = [
         "Coq 8.16.1 kernel; vm_compute inside proofs (80 binary32 confidence classes)",
         "Flocq binary32 (b32_plus/b32_mult/b32_minus, mode_NE) as the semantics of Rust f32 +,*,-",
         "translate/bitflip_consts.py: f32 literals -> bit patterns via Python float/struct (double rounding not possible for the literals present), "
         "regexes over confidence(), BitRange::range, poison list; aborts on unrecognised shapes",
-        "hand-written model C19/Model.v tied to the code by correspondence; the C08 range-table model for region lookup",
+        "translate/c19_check.py: Cpu / PointerWidth / pointer_width / from_processor_architecture (+ numeric ProcessorArchitecture values), the gates and "
+        "adjusted-address arms of check_for_bitflips (small expression grammar) inside a fixed skeleton of the body, from_crash_reason / "
+        "is_possibly_allowed_for arms, NON_CANONICAL_RANGE, GPF constants, guard + index expression of the NEARBY_REGISTER lookup -> Gen/C19Check.v; "
+        "textual pins (abort on change) of try_bit_flips, calculate_heuristics, the adjusted-address part of get_exception_details, "
+        "try_detect_null_pointer_in_disguise, try_get_non_canonical_crash_address, represents_general_protection_fault",
+        "hand-written models C19/Model.v (try_bit_flips, heuristics, confidence) and C19/Pipeline.v (adjusted address, GPF test, operand evaluation, "
+        "implicit stack accesses, instruction-pointer update, register set order) tied to the code by correspondence; the C08 range-table model for region lookup",
+        "the amd64 decoder (yaxpeax) is not modelled: the theorems quantify over an arbitrary analysis result; for Q cases the generator's own encoder "
+        "supplies the decoded form and the harness compares the resulting accesses / ip update / adjusted address / flips with the real analysis",
+        "glue outside the anchored files, validated by correspondence only: Driver.v q_address / q_reason (minidump::get_crash_address, CrashReason::from_exception)",
         "extraction ExtrOcamlBasic only; ocaml/c19/main.ml; harness/src/bin/c19.rs (hook minidump_processor::verif_hooks)",
     ]
-    assumptions = ["instruction analysis (op_analysis / yaxpeax) is not modelled: for dumps with readable instruction bytes only the oracle judges the output",
-                   "CpuOther64 (ppc64/mips64/sparc) is covered by the theorem but not by generated dumps"]
+    assumptions = ["instruction decoding (yaxpeax) is not modelled: theorems hold for every analysis result; P cases with planted bytes and Q cases the generator "
+                   "cannot decode are judged by the oracle alone",
+                   "contexts in generated dumps have all registers valid (theorems cover unreadable registers; 32-bit addressing exercises the unreadable-operand path)"]
     manifest = {
         "text": "Theorems (Coq, all addresses/register files/maps): each flip = examined value xor 2^j with j in the platform's bit range, "
                 "result is null or inside a region (own range, via the C08 lookup-soundness theorem) permitting the access, nothing is "
-                "reported when the examined value is accessible, for 32-bit and ARM64 dumps, or for null-pointer-plus-offset, and "
-                "0 <= confidence <= 1 in exact binary32 for every details value. Constants are regenerated from the source each run; the "
-                "model is compared with try_bit_flips (guarded hook) and with whole-dump processing; an independent oracle re-checks the property on the real output.",
+                "reported when the examined value is accessible (also stated on the map itself for a region that intersects no other), and "
+                "0 <= confidence <= 1 in exact binary32 for every details value with the table index in bounds for every count. Round 5: "
+                "check_for_bitflips is REGENERATED from the source (gates, adjusted-address arms, address pass + nested register pass) and proved "
+                "equal to the model; platform gating for every Cpu variant and every processor_architecture value (only AMD64/PPC64/MIPS64 can "
+                "yield flips; ARM64 and ARM64_OLD never, at any address); the path exception record + ARBITRARY instruction analysis -> adjusted "
+                "address -> both passes: a flagged (null pointer) address silences both passes, a non-canonical adjustment only on amd64 + GPF + "
+                "accessed address in the non-canonical range and then bits 48..64; operand evaluation: flagged iff the base register reads 0; "
+                "zero base register / zero call target => nothing reported; the whole property in plain arithmetic on MemoryInfoList / Linux-maps "
+                "records. Constants, tables, gates and clamps are regenerated from the source each run; model compared with try_bit_flips (guarded "
+                "hook) and with whole-dump processing incl. the analysis result for generated instructions; an independent oracle re-checks the "
+                "property on the real output.",
         "note": "Trusted: Coq kernel (+VM); Flocq as f32 semantics (brings the standard library's real-number and classical axioms under c19_confidence_01 only); "
-                "translator for constants; hand-written model (correspondence-checked); op_analysis not modelled.",
+                "translators; hand-written models (correspondence-checked); the instruction decoder is an unconstrained input of the theorems.",
     }
 
     def gen_regions(self, rng, kind, centre):
